@@ -417,7 +417,8 @@ class StringMagic:
     def PADLEFT(self, args):
         original_string = args[0]
         try:
-            width = int(args[1])
+            # MediaWiki limits the padded length to 500 characters
+            width = min(int(args[1]), 500)
         except ValueError:
             return original_string
 
@@ -435,7 +436,8 @@ class StringMagic:
     def PADRIGHT(self, args):
         original_string = args[0]
         try:
-            width = int(args[1])
+            # MediaWiki limits the padded length to 500 characters
+            width = min(int(args[1]), 500)
         except ValueError:
             return original_string
 
